@@ -315,6 +315,29 @@ impl Check for C12 {
                 }
             }
             Chunk::Nested(i) => {
+                // a field of any width at any position used as a typed quantity: the type's own width (address 160, bool 8,
+                // ...) must not make the entry wider than the field
+                let a = nested_outer_shifts()[i];
+                for w in [8u32, 16, 32, 56, 128, 160, 192, 248] {
+                    for (name, usage) in [
+                        ("BALANCE", vec![o(op::BALANCE)]),
+                        ("EXTCODESIZE", vec![o(op::EXTCODESIZE)]),
+                        ("EXTCODEHASH", vec![o(op::EXTCODEHASH)]),
+                        ("ISZERO", vec![o(op::ISZERO)]),
+                        ("SLT 0", vec![p(0), o(op::SLT)]),
+                        ("call target", vec![p(0), p(0), p(0), p(0), o(0x93), o(op::GAS), o(op::STATICCALL)]),
+                    ] {
+                        let mut t: Vec<Tok> = vec![p(0), o(op::SLOAD)];
+                        if a != 0 {
+                            t.extend([p(a), o(op::SHR)]);
+                        }
+                        t.extend([pu(U::pow2(w).sub(U::ONE)), o(op::AND)]);
+                        t.extend(usage);
+                        t.extend([p(1), o(op::SSTORE)]);
+                        let code = assemble(&t);
+                        run(ctx, "typed_fields", &code, &|| format!("{name}((sload(0) >> {a}) & (2^{w}-1)) stored to slot 1"));
+                    }
+                }
                 for (desc, code, beyond) in nested_programs(nested_outer_shifts()[i]) {
                     run_classified(ctx, "nested_sub_words", &code, &|| desc.clone(), if beyond { Some("region-begins-beyond-its-container") } else { None });
                 }
@@ -339,7 +362,7 @@ impl Check for C12 {
             "all stack-safe token sequences <= {} over {} mask-and-shift tokens (SLOAD 0, CALLDATALOAD, 5 masks incl. one at bits \
              248..255 and the full word, SHR/SHL by 0, 8, 96, 248, 250, 255, 256, 300, 2^64-1, division / multiplication by 2^8, \
              2^96, 2^248, 2^255, OR, DUP1, SWAP1, SSTORE to slot 0 / 1) and {} pipeline templates x B x B (|B| = {}), and the nested sub-word family (a field of 8..160 bits taken out of a field of 8..248 bits of slot 0, \
-             outer shift 0..255, inner shift 0..outer width, read or stored), and the copied-words family (CALLDATACOPY / CODECOPY / RETURNDATACOPY / EXTCODECOPY of 0..100, 127..129, 160, 393..395, 1000 bytes, \
+             outer shift 0..255, inner shift 0..outer width, read or stored), the typed-field family (a field of 8..248 bits at any of 38 positions used as an address, a call target, a boolean or a signed number), and the copied-words family (CALLDATACOPY / CODECOPY / RETURNDATACOPY / EXTCODECOPY of 0..100, 127..129, 160, 393..395, 1000 bytes, \
              each copied word loaded and stored to its own slot): on every returned \
              layout the (slot, offset) sequence is non-decreasing, every offset is < 256 and offset + width <= 256 for every type \
              with a known width. non-trivial = layout with an entry at a non-zero bit offset; distinct by program",
